@@ -216,16 +216,20 @@ func restC19(o *Opts) {
 	os.WriteFile(filepath.Join(root, "victim.dat"), []byte("do not touch"), 0644)
 	os.MkdirAll(filepath.Join(root, "other"), 0755)
 	os.WriteFile(filepath.Join(root, "other", "x.dat"), []byte("do not touch either"), 0644)
+	os.MkdirAll(filepath.Join(root, "data-backup"), 0755)
+	os.MkdirAll(filepath.Join(root, "database"), 0755)
 	if !srv.start() {
 		fatal("server did not start: %s", srv.log.String())
 	}
 	defer srv.kill()
-	pieces := []string{"..", "..", ".", "", "a", "b", "n1", "n2", "victim", "other", "x", "data", "etc", "tmp", "c d", "é", "%2e%2e", "..%2f", "\x00"}
+	pieces := []string{"..", "..", ".", "", "a", "b", "n1", "n2", "victim", "other", "x", "data", "data_old", "datax", "data-backup", "etc", "tmp", "c d", "é", "%2e%2e", "..%2f", "\x00"}
 	seps := []string{"/", "/", "\\", "//"}
 	genName := func() string {
 		switch rng.Intn(6) {
 		case 0:
-			return []string{"", ".", "..", "/", "../victim", "../other/x", "/tmp/verif-escape", "../../escape", "..\\victim", "a/../../victim", "./a", "a/b", "/", "data/../../victim", "victim/..", "x\x00y", "../fresh", "../other/fresh", "a/../../fresh2"}[rng.Intn(19)]
+			return []string{"", ".", "..", "/", "../victim", "../other/x", "/tmp/verif-escape", "../../escape", "..\\victim", "a/../../victim", "./a", "a/b", "/", "data/../../victim", "victim/..", "x\x00y", "../fresh", "../other/fresh", "a/../../fresh2",
+				// siblings whose names begin like the data folder's own name (a textual prefix test on the resolved path lets them through)
+				"../data", "../data_old", "../datax", "../data-backup/evil", "sub/../../datax", "../data.bak", "../database/x", "n1/../../data2"}[rng.Intn(27)]
 		default:
 			k := 1 + rng.Intn(4)
 			var p []string
